@@ -38,11 +38,28 @@ func makeNamedType(name string, underlying types.Type) *types.Named {
 }
 
 func mkRV(t types.Type, v value) value {
-	return structure{rtype{t}, v, uintptr(0)}
+	return structure{rtype{t: t}, v, uintptr(0)}
+}
+
+// rvRO reports whether the reflect.Value was reached through an unexported field.
+func rvRO(v value) bool {
+	rt, ok := v.(structure)[0].(rtype)
+	return ok && rt.ro
+}
+
+// rvWithRO marks the reflect.Value res read-only when ro is set.
+func rvWithRO(res value, ro bool) value {
+	if ro {
+		s := res.(structure)
+		if rt, ok := s[0].(rtype); ok {
+			s[0] = rtype{t: rt.t, ro: true}
+		}
+	}
+	return res
 }
 
 func mkRVAddr(t types.Type, addr *value) value {
-	return structure{rtype{t}, nil, addr}
+	return structure{rtype{t: t}, nil, addr}
 }
 
 func invalidRV() value {
@@ -80,7 +97,7 @@ func mkRType(t types.Type) value {
 	if t == nil {
 		return iface{}
 	}
-	return iface{rtypeType, rtype{t}}
+	return iface{rtypeType, rtype{t: t}}
 }
 
 func argRType(v value) types.Type {
@@ -412,11 +429,11 @@ func init() {
 		return kindV(reflectKind(rvType(fr, args[0])))
 	})
 	V("Type", func(fr *frame, args []value) value { return mkRType(rvType(fr, args[0])) })
-	V("Elem", func(fr *frame, args []value) value { return rvElem(fr, args[0]) })
+	V("Elem", func(fr *frame, args []value) value { return rvWithRO(rvElem(fr, args[0]), rvRO(args[0])) })
 	V("Interface", func(fr *frame, args []value) value { return rvInterface(fr, args[0]) })
-	V("CanInterface", func(fr *frame, args []value) value { return rvValid(args[0]) })
+	V("CanInterface", func(fr *frame, args []value) value { return rvValid(args[0]) && !rvRO(args[0]) })
 	V("CanAddr", func(fr *frame, args []value) value { return rvAddr(args[0]) != nil })
-	V("CanSet", func(fr *frame, args []value) value { return rvAddr(args[0]) != nil })
+	V("CanSet", func(fr *frame, args []value) value { return rvAddr(args[0]) != nil && !rvRO(args[0]) })
 	V("Addr", func(fr *frame, args []value) value {
 		a := rvAddr(args[0])
 		if a == nil {
@@ -471,10 +488,11 @@ func init() {
 		}
 		k := int(asInt64(args[1]))
 		ft := st.Field(k).Type()
+		ro := rvRO(args[0]) || !st.Field(k).Exported()
 		if a := rvAddr(args[0]); a != nil {
-			return mkRVAddr(ft, &(*a).(structure)[k])
+			return rvWithRO(mkRVAddr(ft, &(*a).(structure)[k]), ro)
 		}
-		return mkRV(ft, rvGet(fr, args[0]).(structure)[k])
+		return rvWithRO(mkRV(ft, rvGet(fr, args[0]).(structure)[k]), ro)
 	})
 	V("FieldByName", func(fr *frame, args []value) value {
 		t := rvType(fr, args[0])
